@@ -101,7 +101,8 @@ package node
 //@   requires rss != nil
 //@   ensures fresh(rss.remoteSyncedStates) && rss.remoteSyncedStates != nil
 //@   ensures forall k string :: (in(k, rss.remoteSyncedStates) <==> in(k, ss)) && (in(k, ss) ==> sameSS(rss.remoteSyncedStates[k], ss[k]))
-//@   modifies rss.remoteSyncedStates
+//@   ghostset ghost(rsrestores, rss) := old(ghost(rsrestores, rss)) + 1
+//@   modifies rss.remoteSyncedStates, ghost(rsrestores, rss)
 //@ loop 1
 //@   invariant fresh(rss.remoteSyncedStates) && rss.remoteSyncedStates != nil && rss.remoteSyncedStates != ss
 //@   invariant forall k string :: visited(k) ==> in(k, rss.remoteSyncedStates) && sameSS(rss.remoteSyncedStates[k], ss[k])
@@ -570,4 +571,26 @@ package node
 //@   opt autoloops
 //@   ensures ghost(restorefails, old(kvsm.store.RockDB)) != old(ghost(restorefails, kvsm.store.RockDB)) ==> result1 == errIgnoredRemoteApply && !result0
 //@   ensures ghost(restores, old(kvsm.store.RockDB)) != old(ghost(restores, kvsm.store.RockDB)) ==> result1 == nil && result0
+//@   modifies *
+
+
+// the synced positions travel with the raft snapshot (C19): taking a snapshot copies ALL of them into the snapshot
+// info (checked where the info is completed, right after the copy), and a successful restore from a snapshot installs
+// the positions it carries (partial contracts: only these assertions)
+//@ property C19
+//@ noeffect (*github.com/youzan/ZanRedisDB/raft/raftpb.Snapshot).String (github.com/youzan/ZanRedisDB/raft/raftpb.Snapshot).String
+//@ interface (github.com/youzan/ZanRedisDB/node.StateMachine).GetSnapshot func(sm StateMachine, term uint64, index uint64) (*KVSnapInfo, error)
+//@   ensures result1 == nil ==> result0 != nil && fresh(result0)
+//@ interface (github.com/youzan/ZanRedisDB/node.StateMachine).RestoreFromSnapshot func(sm StateMachine, raftSnapshot raftpb.Snapshot, stop chan struct{}) error
+//@ func (rc *raftNode) GetMembersAndLeader() ([]*common.MemberInfo, *common.MemberInfo)
+//@   trusted membership read; writes nothing
+//@ func (rc *raftNode) GetLearners() []*common.MemberInfo
+//@   trusted membership read; writes nothing
+//@ func (nd *KVNode) GetSnapshot(term uint64, index uint64) (Snapshot, error)
+//@   opt only=ASSERT
+//@   callassert GetLearners si != nil && si.RemoteSyncedStates != nil && (forall k string :: (in(k, si.RemoteSyncedStates) <==> in(k, nd.remoteSyncedStates.remoteSyncedStates)) && (in(k, si.RemoteSyncedStates) ==> sameSS(si.RemoteSyncedStates[k], nd.remoteSyncedStates.remoteSyncedStates[k])))
+//@   modifies *
+//@ func (nd *KVNode) RestoreFromSnapshot(raftSnapshot raftpb.Snapshot) error
+//@   opt only=POST
+//@   ensures result == nil ==> ghost(rsrestores, old(nd.remoteSyncedStates)) == old(ghost(rsrestores, nd.remoteSyncedStates)) + 1
 //@   modifies *
